@@ -45,8 +45,9 @@ def tag_positional(rng, root):
         except (IndexError, AttributeError):
           pass
       # unset positional-only parameters (with or without a default) can carry tags too
-      for i, prm in enumerate(l2.sig_params(b.__fn_or_cls__)):
-        if prm[1] == "PosOnly" and i not in b.__arguments__ and rng.random() < 0.5:
+      params = l2.sig_params(b.__fn_or_cls__)
+      for i, prm in enumerate(params):
+        if prm[1] == "PosOnly" and i not in b.__arguments__ and rng.random() < 0.8:
           try:
             fdl.add_tag(b, i, rng.choice(TAGS))
           except (IndexError, AttributeError, TypeError):
@@ -98,7 +99,13 @@ def check_set_tagged(rng, res, intern, stream, root, label):
     return
   in_heap = enc.heap()
   before = snapshot(root)
-  lt = tagging.list_tags(root)
+  try:
+    lt = tagging.list_tags(root)
+    tagging.list_tags(root, add_superclasses=True)
+  except Exception as e:  # pylint: disable=broad-except
+    res.failures.append(Failure(None, f"C14 {label}: list_tags raised {type(e).__name__}: {e}",
+                                {"label": label, "root": repr(root)[:1200]}))
+    return
   want_lt = set()
   for _, _, tags in before.values():
     for ts in tags.values():
@@ -210,6 +217,35 @@ def check_survival(rng, res, root, label):
                                         {"root": repr(root)[:1200]}))
         except Exception as e:  # pylint: disable=broad-except
           res.count("survival:diff-raised:" + type(e).__name__)
+
+
+def check_diff_with_callable_swap(rng, res, label):
+  """Tags survive diff application also when the diff swaps the callable and the tagged argument exists only
+  on the old (or only on the new) callable."""
+  old = fdl.Config(l2.fa, a=rng.randint(0, 9))
+  if rng.random() < 0.5:
+    old.b = rng.randint(0, 9)
+  for nm in ("a", "b"):
+    if rng.random() < 0.7:
+      fdl.add_tag(old, nm, rng.choice(TAGS))
+  new = fdl.Config(l2.Ka, p=rng.randint(0, 9))
+  for nm in ("p", "q"):
+    if rng.random() < 0.6:
+      fdl.add_tag(new, nm, rng.choice(TAGS))
+  holder_old = fdl.Config(l2.fd, x=old, y=1)
+  holder_new = fdl.Config(l2.fd, x=new, y=1)
+  res.evaluations += 1
+  res.count("diff-with-callable-swap")
+  replay = {"label": label, "old": repr(holder_old), "new": repr(holder_new)}
+  try:
+    diff = diffing.build_diff(holder_old, holder_new)
+    target = copy.deepcopy(holder_old)
+    diffing.apply_diff(diff, target)
+  except Exception as e:  # pylint: disable=broad-except
+    res.failures.append(Failure(None, f"C14 {label}: build_diff / apply_diff raised {type(e).__name__}: {e}", replay))
+    return
+  if tags_only(target) != tags_only(holder_new) or canon_text(target) != canon_text(holder_new):
+    res.failures.append(Failure(None, f"C14 {label}: after apply_diff the tags (or values) differ from new", replay))
 
 
 def check_tagged_value(rng, res, label):
@@ -394,6 +430,8 @@ def run(tier: str, seed: int) -> Result:
     check_set_tagged(rng, res, intern, stream, root, f"dag#{i}")
   for i in range(12 if tier == "quick" else 200):
     check_tagged_value(rng, res, f"tv#{i}")
+  for i in range(40 if tier == "quick" else 1000):
+    check_diff_with_callable_swap(rng, res, f"diffswap#{i}")
   for i in range(150 if tier == "quick" else 4000):
     tag_sequence_case(rng, res, f"tagseq#{i}")
   return res
